@@ -6,13 +6,14 @@ from harness.checks import common
 from harness.drivers import xfer
 
 
-LEVEL = 'exploration'
-
-
 def run(chk):
     q = chk.quick
     chk.rule = (
-        'seeded cases: tuples of 1-4 random functions of 2-4 variables, roots '
+        'S1: MC_CopyLoad -- two managers (every receiver order of 3 names) and '
+        'an abstract file: transcribed pickle loader (levels TRUE/FALSE) and '
+        'JSON loader with its temporary +1 per node: returned root denotes the '
+        'source function, source untouched, receiver canonical with exact '
+        'counts. S3: seeded cases: tuples of 1-4 random functions of 2-4 variables, roots '
         'as list or dict with random signs; pickle via dd.bdd (levels True/'
         'False) and JSON via dd.autoref (load_order True/False); target = '
         'fresh manager, the same manager, a manager declaring the variables '
@@ -26,6 +27,11 @@ def run(chk):
         'load that raises must leave the receiver intact. '
         'distinct_nontrivial = distinct (format, order, target kind, flags, '
         'container kind, #roots)')
+    chk.mc('MC_CopyLoad', 'MC_CopyLoad.cfg' if q else 'MC_CopyLoad_deep.cfg', timeout=3000)
+    r = tlcrun.model_check('MC_CopyLoad', 'MC_CopyLoad_neg.cfg', 'neg', timeout=600)
+    if 'is violated' not in r['out']:
+        raise tlcrun.MachineryError('negative configuration MC_CopyLoad_neg was not refuted')
+    chk.extra['negative_configurations_refuted'] = ['MC_CopyLoad_neg.cfg (JSON loader keeps its temporary references)']
     tmp = os.path.join(chk.dir, 'tmp')
     n = tlcrun.NCPU
     per = 12 if q else 600
